@@ -498,6 +498,32 @@ func (v *Verifier) repoFuncByShortName(pkg *ssa.Package, name string) *ssa.Funct
 	if pkg == nil || name == "" {
 		return nil
 	}
+	// Type.Method or pkg.Type.Method: a method of a named type, receiver first
+	if parts := strings.Split(name, "."); len(parts) >= 2 {
+		tn, mn := parts[len(parts)-2], parts[len(parts)-1]
+		cands := []*ssa.Package{pkg}
+		if len(parts) == 3 {
+			cands = nil
+			for path, sp := range v.SSAPkgs {
+				if v.inRepoPkg(path) && sp.Pkg.Name() == parts[0] {
+					cands = append(cands, sp)
+				}
+			}
+		}
+		for _, sp := range cands {
+			if sp == nil || sp.Type(tn) == nil {
+				continue
+			}
+			for _, recv := range []string{"(" + tn + ")", "(*" + tn + ")"} {
+				if f := v.funcs[sp.Pkg.Path()+"."+recv+"."+mn]; f != nil {
+					return f
+				}
+			}
+		}
+		if len(parts) == 3 {
+			return nil
+		}
+	}
 	if i := strings.Index(name, "."); i > 0 {
 		for path, sp := range v.SSAPkgs {
 			if v.inRepoPkg(path) && sp.Pkg.Name() == name[:i] {
